@@ -7,6 +7,7 @@ package pfcpx
 import (
 	"fmt"
 	"net"
+	"sync"
 
 	"github.com/wmnsk/go-pfcp/ie"
 )
@@ -57,6 +58,7 @@ func ToIP(x uint32) net.IP { return net.IPv4(byte(x>>24), byte(x>>16), byte(x>>8
 
 // Toks is a first-appearance dictionary from concrete 64-bit values to opaque tokens.
 type Toks struct {
+	mu     sync.Mutex
 	prefix string
 	m      map[uint64]string
 	n      int
@@ -69,6 +71,9 @@ func (t *Toks) Reg(v uint64) string {
 	if v == 0 {
 		return "zero"
 	}
+
+	t.mu.Lock()
+	defer t.mu.Unlock()
 
 	if s, ok := t.m[v]; ok {
 		return s
@@ -86,6 +91,9 @@ func (t *Toks) Get(v uint64) string {
 	if v == 0 {
 		return "zero"
 	}
+
+	t.mu.Lock()
+	defer t.mu.Unlock()
 
 	if s, ok := t.m[v]; ok {
 		return s
